@@ -1223,9 +1223,53 @@ class Interp:
         return [Outcome('normal', state)]
 
     def st_Return(self, st, state, frame):
+        if isinstance(st.value, ast.Call):
+            r = self._tail_call(st.value, state, frame)
+            if r is not None:
+                return r
         v = self.eval(st.value, state, frame) if st.value is not None \
             else None
         return [Outcome('return', state, value=v)]
+
+    def _tail_call(self, call, state, frame):
+        """`return f(...)` with f a function of the package that is inlined:
+        every return path of f becomes a return path of the caller (no join
+        of the results into one conditional value), so delegating to a
+        helper keeps the path structure the rules look at."""
+        if any(isinstance(a, ast.Starred) for a in call.args) or any(
+                k.arg is None for k in call.keywords):
+            return None
+        callee = self.eval(call.func, state, frame)
+        fi, recv, cenv = None, None, None
+        if isinstance(callee, FuncInfo):
+            fi = callee
+        elif isinstance(callee, Bound) and isinstance(callee.func, FuncInfo):
+            fi, recv = callee.func, callee.recv
+        elif isinstance(callee, Closure):
+            fi, cenv = callee.func, callee.env
+        args = [self.eval(a, state, frame) for a in call.args]
+        kwargs = {k.arg: self.eval(k.value, state, frame)
+                  for k in call.keywords}
+        if fi is None or fi.is_generator or fi.kind == 'decorated' or \
+                isinstance(fi.node, ast.Lambda):
+            v = self.call_value(callee, args, kwargs, state, call)
+            return [Outcome('return', state, value=v)]
+        if recv is not None:
+            args = [recv] + args
+        if self.policy.summarise(self, fi, args, kwargs, state) is not None \
+                or any(f is fi for f, _ in self.stack):
+            v = self.call_function(fi, args, kwargs, state, call,
+                                   closure_env=cenv)
+            return [Outcome('return', state, value=v)]
+        caller_env = state.env
+        outs = self.call_outcomes(fi, args, kwargs, state, call,
+                                  closure_env=cenv)
+        res = []
+        for o in outs:
+            o.state.env = dict(caller_env)
+            res.append(o)
+        state.env = caller_env
+        return res
 
     def st_Raise(self, st, state, frame):
         if st.exc is None:
